@@ -539,13 +539,17 @@ func (s *Store[H]) flush(ctx context.Context, headers ...H) error {
 	}
 
 	// marshal and add to batch reference to the new head and tail
-	head := *s.contiguousHead.Load()
-	if err := writeHeaderHashTo(ctx, batch, head, headKey); err != nil {
-		return err
+	// NOTE: head and tail are unset if the store was wiped while headers outside of
+	// the contiguous chain were still pending
+	if headPtr := s.contiguousHead.Load(); headPtr != nil {
+		if err := writeHeaderHashTo(ctx, batch, *headPtr, headKey); err != nil {
+			return err
+		}
 	}
-	tail := *s.tailHeader.Load()
-	if err := writeHeaderHashTo(ctx, batch, tail, tailKey); err != nil {
-		return err
+	if tailPtr := s.tailHeader.Load(); tailPtr != nil {
+		if err := writeHeaderHashTo(ctx, batch, *tailPtr, tailKey); err != nil {
+			return err
+		}
 	}
 
 	// write height indexes for headers as well
